@@ -105,6 +105,11 @@ impl Iterator for FollowFileIterator {
             // If we get an EOF in the middle of a line, read_line will return.
             // We will then try again and use content of current read line
             if !self.line.ends_with('\n') {
+                #[cfg(feature="verif_hooks")]
+                if crate::verif_hooks::follow_idle() {
+                    return None;
+                }
+
                 continue;
             }
 
